@@ -619,6 +619,29 @@ def process_case(args):
                 res["real"].setdefault("mismatches", []).append(mm)
         except Exception as e:  # noqa: BLE001
             res["real"].setdefault("mismatches", []).append(("correspondence-crash", f"history: {type(e).__name__}: {e}"))
+        try:
+            heavy = any(st["op"] in ("func", "inline", "reffn") for st, *_ in L.walk(prog["nodes"]))
+            if not prog.get("history") and obs.get("stage") != "construct" and (heavy or fam == "targeted" or idx % 4 == 0):
+                # the same program built once more in this process, on fresh objects: same bytes (or the same
+                # failure). A difference is a broken correspondence — something outlives a build.
+                obs2 = observe(prog)
+                m1, m2 = obs["model"], obs2["model"]
+                if (m1 is None) != (m2 is None):
+                    res["real"].setdefault("mismatches", []).append(
+                        ("rebuild", f"first build {'raises ' + type(obs['error']).__name__ if m1 is None else 'succeeds'}, "
+                                    f"the same program built again {'raises ' + type(obs2['error']).__name__ if m2 is None else 'succeeds'}"))
+                elif m1 is not None and m1.SerializeToString(deterministic=True) != m2.SerializeToString(deterministic=True):
+                    diff = ""
+                    pairs = list(zip(m1.graph.node, m2.graph.node)) + [
+                        (a, b) for f1, f2 in zip(m1.functions, m2.functions) for a, b in zip(f1.node, f2.node)]
+                    for a, b in pairs:
+                        if a != b:
+                            diff = f"{a.name}: {list(a.input)} -> {list(a.output)} vs {b.name}: {list(b.input)} -> {list(b.output)}"
+                            break
+                    res["real"].setdefault("mismatches", []).append(
+                        ("rebuild", f"the same program built twice in one process gives different models ({diff or 'outside the nodes'})"))
+        except Exception as e:  # noqa: BLE001
+            res["real"].setdefault("mismatches", []).append(("correspondence-crash", f"rebuild: {type(e).__name__}: {e}"))
         verdict = judge(prog, obs)
         sp = obs["spies"]
         st = res["stats"]
@@ -978,6 +1001,12 @@ def shrink(prog, stage, budget=120):
                 vis.add(st["id"])
             return vis
 
+        defs: dict = {}
+        for st, *_ in L.walk(p["nodes"]):
+            if st["op"] == "func":  # one name, one definition (several applications share it)
+                d = json.dumps([st.get("domain"), st["params"], st["body"]], sort_keys=True)
+                if defs.setdefault(st["name"], d) != d:
+                    return False
         vis = chk(p["nodes"], {"x", "y"})
         return vis is not False and all(o in vis for o in p["outs"]) and bool(p["nodes"])
 
@@ -1075,6 +1104,8 @@ def gen_programs(ck, escalate=False):
             progs.append(("history-names", L.make_history(rng, prog, i)))
     for i in range(ck.pick(150, 2000) * (3 if escalate else 1)):
         progs.append(("inline-mix", L.inline_mix_program(rng, i)))
+    for i in range(ck.pick(100, 1500) * (3 if escalate else 1)):
+        progs.append(("func-twice", L.func_twice_program(rng, i)))
     if escalate:
         k = 0
         while k < ck.pick(250, 2500):
@@ -1261,6 +1292,40 @@ def targeted_programs():
     P.append({"nodes": hif, "outs": ["t", "f"], "history": [{"names": {}, "outs": [["out0", "t"], ["out1", "f"]]},
                                                              {"names": SW, "outs": [["out0", "t"], ["out1", "f"]]},
                                                              {"names": {"x": "p", "y": "q"}, "outs": [["out1", "t"], ["out0", "f"]], "low": True}]})
+    # one function applied several times, its body needing conversion, a newer operator raising the opset
+    def fn(i, name, args, body_nodes, out, params=("p",), domain="spox.verif"):
+        return {"id": i, "op": "func", "name": name, "domain": domain, "params": list(params), "args": args,
+                "body": {"nodes": copy.deepcopy(body_nodes), "out": out}}
+
+    for k, (bop, bp, top) in enumerate((("rmean", {"axis": 1}, ("identity", 21)), ("rmax", {"axis": 0}, ("identity", 19)),
+                                        ("rmin", {"axis": 1}, ("pad", 18)), ("split_cat", None, ("identity", 21)),
+                                        ("dft", None, ("isnan_w", 20)), ("grid_sample", None, ("identity", 21)),
+                                        ("rlogsum", None, ("identity", 19)))):
+        b = [dict({"id": "q", "op": bop, "mv": 17, "args": ["p"]}, **({"p": bp} if bp else {}))]
+        name = f"ftw_{bop}"
+        # twice in the main graph
+        P.append({"nodes": [fn("f1", name, ["x"], b, "q"), fn("f2", name, ["y"], b, "q"), st("d", "add", 17, ["f1", "f2"]),
+                            st("t", top[0], top[1], ["d"])], "outs": ["t"]})
+        # main graph + If body + nested application
+        P.append({"nodes": [fn("f1", name + "_b", ["x"], b, "q"),
+                            {"id": "i", "op": "if", "mv": 17, "cond": "c",
+                             "then": {"nodes": [fn("f2", name + "_b", ["y"], b, "q")], "out": "f2"},
+                             "else": {"nodes": [fn("f3", name + "_b", ["f1"], b, "q")], "out": "f3"}},
+                            st("d", "sub", 17, ["f1", "i"]), st("t", top[0], top[1], ["d"])], "outs": ["t"]})
+    # an inlined legacy model inside a function applied twice; one `inline` callable applied twice
+    b = [inl("m", "p", "rsum_attr", 12, ml=["scaler", 1]), st("q", "rl2", 17, ["m"], axis=0)]
+    P.append({"nodes": [fn("f1", "ftw_inl", ["x"], b, "q"), fn("f2", "ftw_inl", ["y"], b, "q"), st("d", "add", 17, ["f1", "f2"]),
+                        st("t", "identity", 21, ["d"])], "outs": ["t"]})
+    for body, opset in (("softmax3_reshape", 11), ("unsq_sq_relu", 12), ("rmean_attr", 17), ("pad_attr", 10)):
+        a1, a2 = inl("a", "x", body, opset, custom=2), inl("b", "a", body, opset, custom=2)
+        a1["share"] = a2["share"] = True
+        P.append({"nodes": [a1, a2, st("t", "identity", 19, ["b"])], "outs": ["t"]})
+        a3 = copy.deepcopy(a1)
+        a3.update(id="a3", args=["y"])
+        P.append({"nodes": [a1, {"id": "i", "op": "if", "mv": 17, "cond": "c",
+                                 "then": {"nodes": [a3], "out": "a3"},
+                                 "else": {"nodes": [st("e", "neg", 17, ["y"])], "out": "e"}},
+                            st("d", "add", 17, ["a", "i"]), st("t", "isnan_w", 20, ["d"])], "outs": ["t"]})
     # v17 If in a v21 model (kept although its schema changed)
     P.append({"nodes": [{"id": "i", "op": "if", "mv": 17, "cond": "nc",
                          "then": {"nodes": [st("t", "identity", 21, ["x"])], "out": "t"},
